@@ -167,12 +167,20 @@ def utcDisplayLegacy (d : Dur) : Res Bool :=
   if inOffsetDateTimeRange d then .ok true
   else .panic "time::OffsetDateTime + Duration: resulting value is out of range"
 
-/-- `impl Debug for time::Utc`: `(std::time::SystemTime::UNIX_EPOCH + self.0).fmt(f)`; for a negative duration this is
-`SystemTime - |d|`, whose seconds are `0 - |secs|` and one less when there are sub-second nanos: below `i64::MIN`
-exactly for `secs = i64::MIN` with `nanos < 0` ("overflow when subtracting duration from instant"). -/
-def utcDebug (d : Dur) : Res Unit :=
-  if d.secs = I64_MIN ∧ d.nanos < 0 then .panic "SystemTime - Duration: overflow when subtracting duration from instant"
-  else .ok ()
+/-- does `std::time::SystemTime::UNIX_EPOCH + d` exist? For a negative duration it is `SystemTime - |d|`, whose
+seconds are `0 - |secs|`, one less when there are sub-second nanos: below `i64::MIN` exactly for
+`secs = i64::MIN` with `nanos < 0`. -/
+def inSystemTimeRange (d : Dur) : Bool := !(decide (d.secs = I64_MIN) && decide (d.nanos < 0))
+
+/-- `impl Debug for time::Utc`, **current** code: `checked_add` / `checked_sub` on `SystemTime::UNIX_EPOCH` with a
+textual fallback. `true` = rendered as a `SystemTime`. -/
+def utcDebug (d : Dur) : Res Bool := .ok (inSystemTimeRange d)
+
+/-- the same before the repair of F11: `(std::time::SystemTime::UNIX_EPOCH + self.0).fmt(f)`
+("overflow when subtracting duration from instant") -/
+def utcDebugLegacy (d : Dur) : Res Bool :=
+  if inSystemTimeRange d then .ok true
+  else .panic "SystemTime - Duration: overflow when subtracting duration from instant"
 
 /-! ## BitVector -/
 structure PBitVec where
